@@ -28,6 +28,7 @@ type Task struct {
 	Site    int // last yield site (pkg<<20|site), 0 = a seam outside generated code
 	started bool
 	fn      func()
+	vc      vclock
 	OnOwnStep func(n int) // called on the task's goroutine at each of its yields (own-progress anchored faults)
 }
 
@@ -50,6 +51,7 @@ type Sched struct {
 	AfterStep func(t *Task) // scheduler goroutine, after every step
 	Log      []string
 	LogOn    bool
+	race     *raceDet
 }
 
 var ErrStall = errors.New("stall: unfinished tasks but nothing runnable")
@@ -68,12 +70,20 @@ func (s *Sched) Logf(f string, a ...any) {
 // Go creates a task; it starts running when the scheduler first picks it.
 func (s *Sched) Go(name, tag string, fn func()) *Task {
 	t := &Task{ID: len(s.Tasks), Name: name, Tag: tag, wake: make(chan struct{}), fn: fn}
+	if p := s.Cur; p != nil {
+		t.vc.join(p.vc) // creation happens before everything the new task does
+		p.tick()
+	}
+	t.vc.set(t.ID, 1)
 	s.Tasks = append(s.Tasks, t)
 	go func() {
 		<-t.wake
 		defer func() {
 			if r := recover(); r != nil {
 				t.Panic = r
+			}
+			if s.race != nil {
+				s.race.hand.join(t.vc)
 			}
 			t.Done = true
 			s.back <- struct{}{}
@@ -83,8 +93,14 @@ func (s *Sched) Go(name, tag string, fn func()) *Task {
 	return t
 }
 
-// Yield hands control back to the scheduler. Only the current task may call it.
+// Yield is a harness seam: it publishes the task's clock (see race.go) and hands control back.
 func (s *Sched) Yield(what string) {
+	s.Publish()
+	s.yield(what)
+}
+
+// yield hands control back to the scheduler. Only the current task may call it.
+func (s *Sched) yield(what string) {
 	t := s.Cur
 	if t == nil {
 		return
@@ -98,8 +114,17 @@ func (s *Sched) Yield(what string) {
 	<-t.wake
 }
 
-// Block parks the current task until ready() holds (evaluated by the scheduler).
+// Block is a harness wait: what other tasks published before it ends happens before what follows.
 func (s *Sched) Block(what string, ready func() bool) {
+	s.Publish()
+	s.block(what, ready)
+	if t := s.Cur; t != nil {
+		s.acquireHand(t)
+	}
+}
+
+// block parks the current task until ready() holds (evaluated by the scheduler).
+func (s *Sched) block(what string, ready func() bool) {
 	t := s.Cur
 	if t == nil {
 		if !ready() {
@@ -144,27 +169,43 @@ func (s *Sched) Install() {
 		}
 		t.Site = pkg<<20 | site
 		if s.siteEnabled(pkg, site) {
-			s.Yield("stmt")
+			s.yield("stmt")
 		}
 	}
-	hook.BlockFn = func(what string, ready func() bool) { s.Block(what, ready) }
+	hook.BlockFn = func(what string, ready func() bool) { s.block(what, ready) }
 	hook.SeamFn = func(what string) {
 		if s.Cur != nil {
 			s.Probes["pool_seam"]++
-			s.Yield(what)
+			s.yield(what)
 		}
 	}
 	hook.ResetPools()
-	hook.LockEvent = func(d int) {
+	hook.LockEvent = func(l any, d int) {
 		if t := s.Cur; t != nil {
 			t.Locks += d
 			t.LockTouched = true
+			if s.race != nil {
+				s.race.lockEvent(t, l, d)
+			}
+		}
+	}
+	hook.AccFn, hook.PoolEvent = nil, nil
+	if s.race != nil {
+		hook.AccFn = func(pkg, site int, base any, loc string, write bool) {
+			if t := s.Cur; t != nil {
+				s.race.access(t, pkg, site, base, loc, write)
+			}
+		}
+		hook.PoolEvent = func(p any, put bool) {
+			if t := s.Cur; t != nil {
+				s.race.poolEvent(t, p, put)
+			}
 		}
 	}
 }
 
 func Uninstall() {
-	hook.YieldFn, hook.BlockFn, hook.LockEvent, hook.SeamFn = nil, nil, nil, nil
+	hook.YieldFn, hook.BlockFn, hook.LockEvent, hook.SeamFn, hook.AccFn, hook.PoolEvent = nil, nil, nil, nil, nil, nil
 }
 
 // Run drives the tasks until all are done.
